@@ -320,6 +320,20 @@ func (obj *Package) SetIfHas(name string, value Object, private bool) (vv *VarVa
 			}
 			if vv.Export {
 				obj.passVarToUsers(name, vv)
+				if owner := vv.Pkg; owner != nil && owner != obj {
+					// Set through a package that uses the owner. The other
+					// packages that use the owner see the variable as well.
+					for _, u := range owner.Users {
+						if u == obj {
+							continue
+						}
+						u.mu.Lock()
+						if xv := u.vars[name]; xv == nil || xv.Pkg == owner {
+							u.vars[name] = vv
+						}
+						u.mu.Unlock()
+					}
+				}
 			}
 		}
 	}
